@@ -36,8 +36,21 @@ type RouteDecl struct {
 }
 
 type SvcDecl struct {
-	Root   string      `json:"root"`
-	Routes []RouteDecl `json:"routes"`
+	Root     string      `json:"root"`
+	Routes   []RouteDecl `json:"routes"`
+	Consumes []string    `json:"consumes,omitempty"` // WebService-level defaults: inherited by routes
+	Produces []string    `json:"produces,omitempty"` // that declare no list of their own
+}
+
+// Effective returns a route declaration with the service-level defaults applied.
+func (s SvcDecl) Effective(r RouteDecl) RouteDecl {
+	if len(r.Consumes) == 0 {
+		r.Consumes = s.Consumes
+	}
+	if len(r.Produces) == 0 {
+		r.Produces = s.Produces
+	}
+	return r
 }
 
 // Table is a set of WebServices with their routes, in registration order.
@@ -52,6 +65,9 @@ func (t Table) String() string {
 			sb.WriteString(" | ")
 		}
 		fmt.Fprintf(&sb, "ws %q:", s.Root)
+		if len(s.Consumes) > 0 || len(s.Produces) > 0 {
+			fmt.Fprintf(&sb, " (defaults C%v P%v)", s.Consumes, s.Produces)
+		}
 		for _, r := range s.Routes {
 			fmt.Fprintf(&sb, " #%d %s %q", r.ID, r.Method, r.Sub)
 			if len(r.Consumes) > 0 {
@@ -273,7 +289,7 @@ func (p *Parsed) expectIn(si int, q Request, r Router) Exp {
 		return e
 	}
 	for _, ri := range M {
-		if ConsumesAdmits(svc.Routes[ri], q.CT) {
+		if ConsumesAdmits(svc.Effective(svc.Routes[ri]), q.CT) {
 			T = append(T, ri)
 		}
 	}
@@ -282,7 +298,7 @@ func (p *Parsed) expectIn(si int, q Request, r Router) Exp {
 		return e
 	}
 	for _, ri := range T {
-		if ProducesSatisfies(svc.Routes[ri], q.Accept) {
+		if ProducesSatisfies(svc.Effective(svc.Routes[ri]), q.Accept) {
 			A = append(A, ri)
 		}
 	}
